@@ -72,6 +72,17 @@ class World(StackWorld):
             sopts = {"maxMessagePayloadSize": self.limit, "autoFragmentSize": ch.pick((0, 1, 64), "autoFragmentSize-dealer", (3, 1, 1))}
             if not self.limit:
                 self.limit = None
+            # permessage-deflate on the WAMP-over-WebSocket transport (with context takeover, the default): a reply refused
+            # for its size has been through the compressor already, and every later reply shares that context
+            cfg["deflate"] = ch.flag("permessage-deflate", 0.35)
+            if cfg["deflate"]:
+                from autobahn.websocket.compress import PerMessageDeflateOffer, PerMessageDeflateOfferAccept, PerMessageDeflateResponseAccept
+                copts["perMessageCompressionOffers"] = [PerMessageDeflateOffer()]
+                copts["perMessageCompressionAccept"] = lambda resp: PerMessageDeflateResponseAccept(resp)
+                sopts["perMessageCompressionAccept"] = lambda offers: PerMessageDeflateOfferAccept(offers[0]) if offers else None
+                # (the size limit is judged on what goes onto the wire: the dealer's end gets no receive limit of its own, and
+                # oversized results are incompressible and at least twice the limit)
+                sopts["maxMessagePayloadSize"] = 0
         elif self.fwname == "tx":
             cfg["server_max"] = ch.pick((1024, 2048, 4096, 2 ** 24), "rs-server-max", (2, 2, 2, 1))
             sopts = {"maxMessagePayloadSize": cfg["server_max"]}
@@ -165,6 +176,8 @@ class World(StackWorld):
         if b == "unserializable":
             return Unserializable()
         if b == "oversized":
+            if self.cfg.get("deflate"):
+                return _incompressible(2 * inv.big + 64, inv.id)
             return "O" * inv.big
         if b == "at-limit":
             return "L" * inv.fit
@@ -415,6 +428,13 @@ class World(StackWorld):
         run = self.run
         up = not self.client.t.is_gone() and not self.server.t.is_gone()
         kind = self.cfg["kind"]
+        if not up and self.order:
+            # this world injects no transport fault, the dealer sends only valid traffic within the limits: a transport that
+            # is gone was brought down by the traffic itself - and with it every reply that was still due
+            sess_closes = [(s.name, ev[1:]) for s in (self.dealer,) for ev in s.events if ev[0] == "onClose"]
+            run.violate("C10.every-transport", "transport-went-down-without-a-fault:%s/%s" % (kind, self.fwname),
+                        "client gone %s, server gone %s, dealer %r, last escaped exception: %s" % (
+                            self.client.t.is_gone(), self.server.t.is_gone(), sess_closes, getattr(self, "last_escape", None)))
         for inv in self.order:
             if getattr(inv, "_bad", False):
                 continue
@@ -530,3 +550,18 @@ class World(StackWorld):
         return {"config": {k: repr(v) for k, v in self.cfg.items()},
                 "invocations": [{"id": i.id, "behaviour": i.behaviour, "proc": i.proc, "interrupts": i.interrupts,
                                  "replies": [r[0] for r in self.replies(i)]} for i in self.order][:12]}
+
+
+def _incompressible(n, salt):
+    """n characters of text that deflate cannot shrink much (base64 of a hash chain)"""
+    import base64
+    import hashlib
+    out = []
+    h = hashlib.sha256(b"c10-%d" % salt).digest()
+    size = 0
+    while size < n:
+        h = hashlib.sha256(h).digest()
+        piece = base64.b64encode(h).decode("ascii").rstrip("=")
+        out.append(piece)
+        size += len(piece)
+    return "".join(out)[:n]
